@@ -517,6 +517,45 @@ def l_seeded(seed, n, cont_only=False, maxn=3, maxm=3, coefs=None, rhss=None, na
     return out
 
 
+def diverging_family(bounded=False):
+    """infeasible (and a few feasible) models on which bound propagation does not converge: each round doubles or
+    shifts a bound, until a product or a sum of end points overflows or the step limit is reached. What is published
+    then must still be a range (not +inf as a lower bound), render as text the parser reads, and let the solvers say
+    'infeasible'."""
+    x, y = var('x'), var('y')
+    out = []
+    shapes = [
+        [row(['*', ['abs', x], num(2)], '=', x)],
+        [row(x, '>=', ['+', ['abs', x], x])],
+        [row(['max', [x, ['+', ['abs', x], x]]], '=', x)],
+        [row(x, '>=', ['+', ['*', num(2), x], num(1)])],
+        [row(x, '<=', ['-', ['*', num(2), x], num(1)]), row(x, '<=', num(100))],     # feasible: x >= 1
+        [row(y, '>=', ['+', x, num(1)]), row(x, '>=', ['+', y, num(1)])],               # +1 per round: step limit
+        [row(y, '>=', ['*', num(3), x]), row(x, '>=', ['*', num(3), y])],               # x3 per round
+        [row(y, '<=', ['*', num(3), x]), row(x, '<=', ['*', num(3), y]), row(x, '<=', num(-1))],   # towards -inf
+        [row(['+', x, y], '>=', ['+', ['*', num(2), x], ['*', num(2), y]]), row(y, '>=', x)],
+    ]
+    domsets = [
+        {'x': D('NNReal', 0.5, 'inf'), 'y': D('NNReal', 1, 'inf')},
+        {'x': D('Real', 1, 'inf'), 'y': D('Real', 1, 'inf')},
+        {'x': D('Real', '-inf', 'inf'), 'y': D('Real', '-inf', 'inf')},
+        {'x': D('Real', '-inf', -1), 'y': D('Real', '-inf', -1)},
+    ]
+    if bounded:
+        # end-to-end checks decide optima over bounded domains only: the same rows, contradiction met inside the box
+        domsets = [
+            {'x': D('Real', 0.5, 1000), 'y': D('Real', 1, 1000)},
+            {'x': D('Real', -1000, -1), 'y': D('Real', -1000, -1)},
+            {'x': D('Int', 1, 50), 'y': D('Int', 1, 50)},
+            {'x': D('Real', -8, 8), 'y': D('Real', -8, 8)},
+        ]
+    for cons in shapes:
+        for doms in domsets:
+            for od, oe in (('min', x), ('max', num(1))):
+                out.append({'fam': 'Mdiv', 'profile': 'diverging', 'model': mk_model(od, oe, [dict(c) for c in cons], dict(doms))})
+    return out
+
+
 def rename_vars(m, mapping):
     """the same model with other variable names (compound-looking x_1, leading underscore _t, digits y2)"""
     import copy
